@@ -6,6 +6,7 @@ package main
 
 import (
 	"bufio"
+	"bytes"
 	"fmt"
 	"strings"
 
@@ -126,6 +127,39 @@ func (r *routeRunner) Step(line string) string {
 		}
 		_ = db.Close()
 		return "ok " + fmtRoute(rt) + " recs=" + strings.Join(parts, ",")
+	case "read": // what the store opened for the request sees: through its iterator and through a snapshot of it
+		db, err := p.OpenDB(req)
+		if err != nil {
+			return "err " + errKind(err)
+		}
+		defer db.Close()
+		list := func(rd interface {
+			NewIterator(prefix []byte, start []byte) kvdb.Iterator
+		}) string {
+			var parts []string
+			it := rd.NewIterator(nil, nil)
+			defer it.Release()
+			for it.Next() {
+				if bytes.Equal(it.Key(), recordsKey) {
+					continue
+				}
+				parts = append(parts, HexOf(it.Key())+"="+HexOf(it.Value()))
+			}
+			if len(parts) == 0 {
+				return "-"
+			}
+			return strings.Join(parts, ",")
+		}
+		direct := list(db)
+		snap, err := db.GetSnapshot()
+		if err != nil {
+			return "err snapshot"
+		}
+		defer snap.Release()
+		if viaSnap := list(snap); viaSnap != direct {
+			return direct + " SNAPSHOT-DIFFERS " + viaSnap
+		}
+		return direct
 	case "dump":
 		rt := p.RouteOf(req)
 		m := r.mem[rt.Type]
@@ -313,6 +347,9 @@ func genRoute(r *Rand, n int, tier string, w *bufio.Writer) {
 				fmt.Fprintf(w, "put %s r=%s k=%s v=%s\n", p, q, HexOf([]byte{byte(r.Intn(3)), byte('a' + r.Intn(2))}[:1+r.Intn(2)]), HexOf([]byte{byte(r.Intn(256))}))
 			case x < 8:
 				fmt.Fprintf(w, "dump %s r=%s\n", p, q)
+				if r.Chance(1, 2) {
+					fmt.Fprintf(w, "read %s r=%s\n", p, q)
+				}
 			case x < 9:
 				fmt.Fprintf(w, "verify %s\n", p)
 			case x < 10:
@@ -330,6 +367,7 @@ func genRoute(r *Rand, n int, tier string, w *bufio.Writer) {
 		for _, q := range reqs {
 			fmt.Fprintf(w, "open p0 r=%s\n", q)
 			fmt.Fprintf(w, "dump p0 r=%s\n", q)
+			fmt.Fprintf(w, "read p0 r=%s\n", q)
 		}
 		fmt.Fprintf(w, "verify p%d\nverify m\n", ninst-1)
 	}
